@@ -151,6 +151,26 @@ def run(ctx):
     id_guard(ctx, M, "R10.5")
 
     no_overwrite(ctx, "R10.8")
+    # ---- R10.9 the sweeper cannot be trapped in a lock-order cycle (necessary for 'as sweeps keep occurring ...') -------
+    import c18
+    edges, _b, _n, _i = c18.lock_graph(ctx, record_ok=False)
+    graph = {}
+    for (h, a2), sites in edges.items():
+        graph.setdefault(h, set()).add(a2)
+    cyc = c18.find_cycle(graph)
+    relevant = set()
+    for o in retains:
+        for nid in F.insts_of(o["fn"].name):
+            relevant |= {F.def_of(n) for n in F.inst_reach([nid])}
+    bad_cycle = None
+    if cyc:
+        cyc_edges = [(h, a2) for (h, a2) in edges if h in cyc and a2 in cyc and h != a2]
+        if any(s[0].name in relevant for e2 in cyc_edges for s in edges[e2]):
+            bad_cycle = cyc
+    ctx.check(bad_cycle is None, "R10.9", "no-lock-cycle-through-sweeper",
+              "no lock-order cycle involves code the sweeper runs (its shard lock is held across the evict hook): otherwise sweeping stops for good and expired keys are never reclaimed",
+              detail=("cycle %s" % " -> ".join(bad_cycle)) if bad_cycle else "")
+
     # ---- R10.6 the sweeper's hook reaches release and store removal -------------------------------------------
     spawn = F.spawn_closures()
     sw = [o["fn"] for o in retains]
